@@ -187,6 +187,10 @@ pub fn install_panic_hook() {
                 }
             }
         };
+        if std::env::var_os("GDSIM_PRINT_BACKTRACE").is_some() {
+            // debugging aid for replays: where was the client when the simulator stopped it?
+            eprintln!("{msg} at {loc}\n{}", std::backtrace::Backtrace::force_capture());
+        }
         if !IN_RUN.with(std::cell::Cell::get) {
             // a panic outside a simulated run is a bug of the harness itself
             eprintln!("HARNESS-ERROR panic outside a simulated run: {msg} at {loc}");
